@@ -1,14 +1,18 @@
 import PhyloModel.Matrix.Phylip
 import PhyloModel.Matrix.StoreLemmas
+import PhyloModel.Matrix.PhylipRT
 /-! # C14 — Phylip round trip is lossless; the parsers are total and strict
 
 `PHY.toPhylip`, `PHY.fromPhylipTril`, `PHY.fromPhylipStrict` mirror `to_phylip`, `from_phylip_tril`,
 `from_phylip_strict` of the repaired crate on `List Char`, with `str::lines` / `str::split_whitespace` /
 `usize::from_str` transcribed (`PH.lines`, `PH.splitWs`, `PHY.parseUsize`).  Entries are values of any type
-with a codec (`showL`, `parseL`, `numEq`, `isZero`).  The string-layer round-trip lemmas (`PH.split_join`,
-`PH.lines_terminated`) are proved; the full cell-for-cell round-trip theorem is NOT yet assembled from them and
-is decided on every run by the bit-exact correspondence and round-trip oracle (f32 and f64, both layouts, three
-entry points). -/
+with a codec (`showL`, `parseL`, `numEq`, `isZero`).  The cell-for-cell round trip is a theorem for the triangular layout read by
+`from_phylip_tril` (`tril_roundtrip`, including the size line: `usize` `Display`/`FromStr` is proved from the
+core library's digit lemmas, not assumed); for the square layout and for `from_phylip_strict` (which fills the
+matrix through the by-name `get`/`set`) it is decided on every run by the bit-exact correspondence and the
+round-trip oracle (f32 and f64, both layouts, three entry points).  The hypothesis "taxon names are non-empty
+words" is forced by the proof; the real code was run at the excluded point (an empty name) and fails there: a
+recorded known finding. -/
 namespace C14
 open PHY MXS MX Tri
 
@@ -168,5 +172,26 @@ theorem row_fields_roundtrip (sep : List Char) (hsep : PH.Sep sep) (ws : List (L
 /-- `usize::from_str` accepts what `Display` for `usize` prints (decimal digits, no sign) -/
 example : parseUsize "12".toList = some 12 ∧ parseUsize "+3".toList = some 3 ∧ parseUsize "-0".toList = none ∧
     parseUsize "".toList = none ∧ parseUsize "3 ".toList = none := by decide
+
+/-- **triangular round trip**: writing any matrix whose taxon names are non-empty and whitespace-free in
+    triangular form and reading it back with `from_phylip_tril` reproduces the taxa (same order) and every
+    cell, for every entry type whose `Display`/`FromStr` pair satisfies the two codec laws (what is written
+    parses back to the same value; what is written is a non-empty whitespace-free word) -/
+theorem tril_roundtrip (hl : Laws cd) (m : Mat L) (hnames : ∀ nm ∈ m.taxa, PH.Word nm.toList)
+    (hsz : m.v.size = T2 m.taxa.length) (hn : m.taxa.length < 2 ^ 64) :
+    fromPhylipTril cd (toPhylip cd m false) = .ok m :=
+  PHY.tril_roundtrip cd hl m hnames hsz hn
+
+/-- the size line round-trips for every size a `usize` can hold -/
+theorem size_line_roundtrip (n : Nat) (hn : n < 2 ^ 64) : parseUsize (toString n).toList = some n :=
+  header_roundtrip n hn
+
+/-- non-vacuity: a two-valued entry type whose codec satisfies both laws -/
+example : Laws ({ showL := fun b => if b then ['1'] else ['0'],
+                  parseL := fun t => if t = ['1'] then some true else if t = ['0'] then some false else none,
+                  numEq := fun a b => a == b, isZero := fun b => !b, zero := false } : Codec Bool) := by
+  constructor
+  · intro x; cases x <;> simp
+  · intro x; cases x <;> exact ⟨by simp, by intro c hc; simp at hc; subst hc; decide⟩
 
 end C14
